@@ -67,7 +67,11 @@ impl DcpsDomainParticipant {
             0,
             USER_DEFINED_WRITER_GROUP,
         ]);
-        self.publisher_counter += 1;
+        // the id space of one participant is exhausted: report it instead of overflowing
+        self.publisher_counter = self
+            .publisher_counter
+            .checked_add(1)
+            .ok_or(DdsError::OutOfResources)?;
         let data_writer_list = Default::default();
         let listener_sender = dcps_listener.map(|l| l.spawn(&runtime.spawner()));
         let mut publisher = PublisherEntity::new(
@@ -157,7 +161,10 @@ impl DcpsDomainParticipant {
             0,
             USER_DEFINED_READER_GROUP,
         ]);
-        self.subscriber_counter += 1;
+        self.subscriber_counter = self
+            .subscriber_counter
+            .checked_add(1)
+            .ok_or(DdsError::OutOfResources)?;
 
         let listener_sender = dcps_listener.map(|l| l.spawn(&runtime.spawner()));
         let mut subscriber = UserDefinedSubscriber::new(
@@ -272,7 +279,11 @@ impl DcpsDomainParticipant {
             self.domain_participant.topic_counter.to_ne_bytes()[1],
             USER_DEFINED_TOPIC,
         ]);
-        self.domain_participant.topic_counter += 1;
+        self.domain_participant.topic_counter = self
+            .domain_participant
+            .topic_counter
+            .checked_add(1)
+            .ok_or(DdsError::OutOfResources)?;
         let listener_sender = dcps_listener.map(|l| l.spawn(&runtime.spawner()));
         let topic = TopicEntity::new(
             qos,
@@ -392,7 +403,11 @@ impl DcpsDomainParticipant {
             self.domain_participant.topic_counter.to_ne_bytes()[1],
             USER_DEFINED_TOPIC,
         ]);
-        self.domain_participant.topic_counter += 1;
+        self.domain_participant.topic_counter = self
+            .domain_participant
+            .topic_counter
+            .checked_add(1)
+            .ok_or(DdsError::OutOfResources)?;
 
         let topic = ContentFilteredTopicEntity::new(
             name,
